@@ -18,3 +18,27 @@ func init() {
 	reg("math/rand.Int31n", func(fr *frame, args []Value) Value { return term.Const(32, 0) })
 	reg("math/rand.Float64", func(fr *frame, args []Value) Value { return float64(0.5) })
 }
+
+// math/bits.Len*: the library indexes a 256-entry table with a byte of x; for a symbolic x that
+// would be concretised. Modelled as the ite chain "highest i with x >= 2^i".
+func init() {
+	lenN := func(w uint8) intrinsic {
+		return func(fr *frame, args []Value) Value {
+			x := args[0].(*term.Term)
+			if x.W < w {
+				x = term.ZExt(x, w)
+			}
+			res := tInt(0)
+			for i := 0; i < int(w); i++ {
+				ge := term.Not(term.Cmp(term.OUlt, x, term.Const(w, uint64(1)<<uint(i))))
+				res = term.Ite(ge, tInt(int64(i+1)), res)
+			}
+			return res
+		}
+	}
+	reg("math/bits.Len64", lenN(64))
+	reg("math/bits.Len32", lenN(32))
+	reg("math/bits.Len16", lenN(16))
+	reg("math/bits.Len8", lenN(8))
+	reg("math/bits.Len", lenN(64))
+}
